@@ -7,7 +7,7 @@ import subprocess
 import vlib
 
 META = {
-    "text": "TLC model-checks the envelope WalkProtocol specification (one action per hooked synchronisation point) for all forests up to the bound, 2-3 (4 in thorough) workers, quit at no/any node: NoDup, NoLoss, NoWorkStranded, QuitNeverVanishes, ExitClean and termination under weak fairness, over all interleavings. The real walker runs under a deterministic scheduler (hook H2) with random, PCT and systematically enumerated bounded-preemption schedules; every recorded trace is validated by TLC against WalkTrace (steal victim/batch inferred from logged deque lengths) and judged directly (hang, duplicate, loss).",
+    "text": "TLC model-checks the envelope WalkProtocol specification (one action per hooked synchronisation point) for all forests up to the bound, 2-3 (4 in thorough) workers, quit at no/any node, unreadable entries (error handed to the visitor while the parent is listed) and Skip answers: NoDup, NoLoss, NoWorkStranded, QuitNeverVanishes, ExitClean and termination under weak fairness, over all interleavings. The real walker runs under a deterministic scheduler (hook H2) with random, PCT and systematically enumerated bounded-preemption schedules; every recorded trace is validated by TLC against WalkTrace (steal victim/batch inferred from logged deque lengths) and judged directly (hang, duplicate, loss).",
     "note": "Sequentially consistent interleavings of the hooked points only (the scheduler serialises workers); crossbeam-deque is trusted below its API; tree sizes and worker counts bounded (specs/walk/*.cfg).",
     "technique": "TLC model checking of a TLA+ protocol spec (safety + liveness) + trace validation of scheduler-controlled executions of ignore::WalkParallel",
 }
@@ -38,13 +38,40 @@ def rand_tree(rng, maxn):
     return names, roots
 
 
+def rand_err_skip(rng, tree, roots):
+    """Unreadable entries (non-root files) and nodes at which the visitor answers Skip."""
+    nodes = [t.rstrip("/") for t in tree]
+    files = [t for t in tree if not t.endswith("/") and t not in roots]
+    err, skip = [], []
+    if files and rng.random() < 0.35:
+        err = rng.sample(files, min(len(files), rng.randint(1, 3)))
+    if rng.random() < 0.35:
+        skip = rng.sample(nodes, min(len(nodes), rng.randint(1, 2)))
+        if err and rng.random() < 0.7:
+            skip = sorted(set(skip) | set(rng.sample(err, 1)))
+    return err, skip
+
+
+def expected_nodes(sc):
+    """Entries the walk must hand out: everything not below a directory at which the visitor answers Skip."""
+    skip = set(sc.get("skip", []))
+    out = []
+    for n in [t.rstrip("/") for t in sc["tree"]]:
+        parts = n.split("/")
+        if any("/".join(parts[:i]) in skip for i in range(1, len(parts))):
+            continue
+        out.append(n)
+    return out
+
+
 def header(sc):
     nodes = [t.rstrip("/") for t in sc["tree"]]
     ch = {n: [] for n in nodes}
     for n in nodes:
         if "/" in n:
             ch[n.rsplit("/", 1)[0]].append(n)
-    return {"ev": "Init", "nodes": nodes, "ch": ch, "roots": sc["roots"], "quit": sc.get("quit", [])}
+    return {"ev": "Init", "nodes": nodes, "ch": ch, "roots": sc["roots"], "quit": sc.get("quit", []),
+            "err": sc.get("err", []), "skip": sc.get("skip", [])}
 
 
 def run_recorder(scens, timeout=600):
@@ -90,7 +117,7 @@ def judge_run(sc, r):
         if p not in nodes:
             return "visitor got an entry that does not exist: %s" % p
     if not sc.get("quit"):
-        missing = [n for n in nodes if r["visits"].get(n, 0) != 1]
+        missing = [n for n in expected_nodes(sc) if r["visits"].get(n, 0) != 1]
         if missing:
             return "entries never visited although no visitor asked to quit: %s" % missing[:3]
     return None
@@ -154,7 +181,7 @@ def validate_traces(chk, scens, results, tag):
             os.remove(tpath)
 
 
-def preemption_search(chk, tree, roots, threads, quit, bound, budget, idbase):
+def preemption_search(chk, tree, roots, threads, quit, bound, budget, idbase, err=(), skip=()):
     """Systematic exploration: all schedules with at most `bound` preemptions of the non-preemptive default."""
     scens = []
     results = {}
@@ -173,7 +200,7 @@ def preemption_search(chk, tree, roots, threads, quit, bound, budget, idbase):
             seen.add(key)
             nid[0] += 1
             sc = {"id": nid[0], "tree": tree, "roots": roots, "threads": threads, "seed": nid[0], "mode": "np",
-                  "forced": prefix, "quit": quit, "max_steps": 3000, "_used": used, "_plen": len(prefix)}
+                  "forced": prefix, "quit": quit, "err": list(err), "skip": list(skip), "max_steps": 3000, "_used": used, "_plen": len(prefix)}
             bs.append(sc)
         if not bs:
             continue
@@ -210,7 +237,7 @@ def main(tier):
                        "crossbeam-deque's steal_batch_and_pop modelled from its documentation/source (any victim, 1..(len-1)/2+1 tasks)",
                        "bounds: specs/walk/Walk_*.cfg"]
     # 1. the design
-    designs = ["Walk_n2k5", "Walk_quick3"] if tier == "quick" else ["Walk_n2k5", "Walk_quick3", "Walk_n3k5", "Walk_n4k4", "Walk_spurious"]
+    designs = ["Walk_n2k5", "Walk_quick3", "Walk_errskip"] if tier == "quick" else ["Walk_n2k5", "Walk_quick3", "Walk_errskip", "Walk_errskip3", "Walk_n3k5", "Walk_n4k4", "Walk_spurious"]
     for c in designs:
         res = vlib.tlc("walk/MCWalk", c, workers=12, timeout=7200, xmx="24g")
         chk.add_tlc(res)
@@ -226,23 +253,26 @@ def main(tier):
         nodes = [t.rstrip("/") for t in tree]
         threads = rng.choice([2, 2, 3, 3, 4] if tier == "quick" else [2, 3, 4, 4, 6, 8])
         quit = [rng.choice(nodes)] if rng.random() < 0.4 else []
+        err, skip = rand_err_skip(rng, tree, roots)
         scens.append({"id": i + 1, "tree": tree, "roots": roots, "threads": threads, "seed": rng.randrange(1 << 30),
-                      "mode": rng.choice(["random", "pct", "pct"]), "quit": quit, "max_steps": 40000,
+                      "mode": rng.choice(["random", "pct", "pct"]), "quit": quit, "err": err, "skip": skip, "max_steps": 40000,
                       "pct_depth": rng.randint(1, 4), "pct_horizon": 20 + 8 * len(nodes)})
     results = run_recorder_parallel(scens, nproc=8)
     all_scens = list(scens)
     # 3. systematic bounded-preemption exploration on small trees
-    small = [(["r/", "r/f"], ["r"]), (["r/", "r/a", "r/b"], ["r"]), (["r/", "r/d/", "r/d/f"], ["r"]), (["a", "b/", "b/c"], ["a", "b"])]
+    small = [(["r/", "r/f"], ["r"], [], []), (["r/", "r/a", "r/b"], ["r"], [], []), (["r/", "r/d/", "r/d/f"], ["r"], [], []),
+             (["a", "b/", "b/c"], ["a", "b"], [], []), (["r/", "r/a", "r/b", "r/c"], ["r"], ["r/b"], ["r/b"]),
+             (["r/", "r/d/", "r/d/f", "r/e"], ["r"], ["r/e"], ["r/d"])]
     bound = 2 if tier == "quick" else 3
     budget = 600 if tier == "quick" else 20000
     idb = 100000
-    for tree, roots in small:
+    for tree, roots, err, skip in small:
         nodes = [t.rstrip("/") for t in tree]
-        for quit in [[]] + [[n] for n in nodes]:
+        for quit in ([[]] + [[n] for n in nodes] if not err else [[], err]):
             for threads in ([2] if tier == "quick" else [2, 3]):
                 # the smallest tree is explored one preemption deeper
                 b2 = bound + 1 if (tree == small[0][0] and threads == 2) else bound
-                s2, r2 = preemption_search(chk, tree, roots, threads, quit, b2, budget * (3 if b2 > bound else 1), idb)
+                s2, r2 = preemption_search(chk, tree, roots, threads, quit, b2, budget * (3 if b2 > bound else 1), idb, err, skip)
                 idb += 100000
                 all_scens += s2
                 results.update(r2)
@@ -266,11 +296,12 @@ def main(tier):
 
             def path(n):
                 return (path(parent[n]) + "/" if n in parent else "") + "n%d" % n
-            tree = [path(n) + ("/" if ch[n - 1] else "") for n in range(1, len(ch) + 1)]
+            # childless nodes become empty directories or files (an unreadable entry is a file-like leaf)
+            tree = [path(n) + ("/" if ch[n - 1] or (n not in b["err"] and (n + idb) % 3 == 0) else "") for n in range(1, len(ch) + 1)]
             idb += 1
             sim_scens.append({"id": idb, "tree": tree, "roots": [path(r) for r in b["roots"]], "threads": nthreads, "seed": idb,
                               "mode": "random", "forced": [w for w, pcw in b["h"] if pcw != "visit"], "quit": [path(n) for n in b["quit"]],
-                              "max_steps": 5000})
+                              "err": [path(n) for n in b["err"]], "skip": [path(n) for n in b["skip"]], "max_steps": 5000})
     r3 = run_recorder_parallel(sim_scens, nproc=8)
     for sc3 in sim_scens:
         if r3[sc3["id"]]["choices"][:len(sc3["forced"])] == sc3["forced"]:
